@@ -29,6 +29,9 @@ import (
 //	list-child-key       a container called key inside a multi-key list (struct <List>_Key)
 //	key-struct-name      a list key whose CamelCase name is the Go name of the list entry struct: a top-level
 //	                     OpenConfig-style list (under -compress_paths /mtus/mtu becomes struct Mtu) with a key mtu
+//	top-level-helper-name  a top-level node of an OpenConfig-style module whose CamelCase name is a package-level
+//	                     identifier of the generated code (schema, schema-tree, unzip-schema, unmarshal): under
+//	                     -compress_paths its struct has that bare name
 const (
 	ClCamelSiblings  = "camelcase-siblings"
 	ClDashUnderscore = "dash-underscore"
@@ -48,12 +51,16 @@ const (
 	ClKeyOrder       = "key-camelcase-misorder"
 	ClListChildKey   = "list-child-key"
 	ClKeyStructName  = "key-struct-name"
+	ClTopHelper      = "top-level-helper-name"
 )
+
+// packageHelpers: CamelCase names of package-level functions / variables of every generated Go package.
+var packageHelpers = map[string]bool{"Schema": true, "SchemaTree": true, "UnzipSchema": true, "Unmarshal": true}
 
 // AllClasses lists every collision class, sorted.
 func AllClasses() []string {
 	cs := []string{ClCamelSiblings, ClDashUnderscore, ClGoKeyword, ClMethodValidate, ClMethodAccessor, ClHelperName, ClDigitsDots,
-		ClEnumSanitise, ClEnumUNSET, ClEnumCase, ClIdentSameName, ClIdentSanitise, ClKeyKey, ClKeyListName, ClKeyCamel, ClKeyOrder, ClListChildKey, ClKeyStructName}
+		ClEnumSanitise, ClEnumUNSET, ClEnumCase, ClIdentSameName, ClIdentSanitise, ClKeyKey, ClKeyListName, ClKeyCamel, ClKeyOrder, ClListChildKey, ClKeyStructName, ClTopHelper}
 	sort.Strings(cs)
 	return cs
 }
@@ -95,6 +102,12 @@ func (g *gen) nodeName(sc *scope, kind string) string {
 		}
 		if !g.use(cl) {
 			return ""
+		}
+		if sc.ocTop && kind != "leaf" && kind != "leaf-list" && packageHelpers[camelCase(n)] {
+			if !g.use(ClTopHelper) {
+				return ""
+			}
+			g.hit(ClTopHelper)
 		}
 		if sc.kinfo != nil && sc.kinfo.misorderWith(sc.names, n, sc.kinfo.nextIsKey) {
 			if !g.use(ClKeyOrder) {
